@@ -23,6 +23,31 @@ def monitor_c18(trace, status):
         if last.get(tid, "").endswith("poisoned") and body.startswith("mutex_unlock") and "panicking" in body:
             problems.append("step %d: t%d found the writer mutex poisoned by an earlier mutator's panic and panicked itself instead of proceeding: later mutators are wedged" % (i, tid))
         last[tid] = body
+    # the writer waits for what was in flight, not for later arrivals (C18_seen_slot_not_reloaded,
+    # C18_barrier_ends_when_both_seen): once it has itself found each slot empty since it took the
+    # writer mutex, it has no reason to look at a slot again; a writer that does is waiting for
+    # deliveries that began after it published, and a continuous stream of those holds it for ever.
+    # (Two further loads are tolerated so that a rewrite that finishes its pass is not blamed.)
+    seen = {}      # tid -> [slot0 seen empty, slot1 seen empty, loads since both]
+    for i, l in enumerate(trace):
+        m = TID.match(l)
+        if not m:
+            continue
+        tid, body = int(m.group(1)), m.group(3)
+        if body.startswith("mutex_lock"):
+            seen[tid] = [False, False, 0]
+        elif body.startswith("mutex_unlock"):
+            seen.pop(tid, None)
+        elif tid in seen:
+            mm = re.match(r"load (\S*)lock([01]) = (\d+)", body)
+            if mm:
+                st = seen[tid]
+                if st[0] and st[1]:
+                    st[2] += 1
+                    if st[2] == 3:
+                        problems.append("step %d: writer t%d has found each slot empty since it published (so every delivery in flight then has returned), yet it goes on waiting: `%s` is its %dth further look at the slots; it is waiting for deliveries that began later, and a continuous stream of them would hold it for ever" % (i, tid, body, st[2]))
+                if int(mm.group(3)) == 0:
+                    st[int(mm.group(2))] = True
     inside = set()
     writer_steps_since_quiet = {}   # tid -> own steps since the last moment a reader was inside
     for i, l in enumerate(trace):
@@ -49,7 +74,21 @@ def monitor_c18(trace, status):
     return problems
 
 
+def gen_leapfrog(rng):
+    """one writer and a stream of overlapping long read sections: readers keep arriving after the
+    writer published, so that at most moments somebody is inside one of the slots"""
+    lines = ["t0 write 1"] + (["t0 write 1"] if rng.random() < 0.4 else [])
+    for t in range(1, rng.randint(3, 5)):
+        for _ in range(rng.randint(2, 4)):
+            lines.append("t%d read %d" % (t, rng.choice([2, 3, 3, 4])))
+    lines.append("seed %d" % rng.randint(1, 2**31))
+    lines.append("maxsteps 1500")
+    return lines
+
+
 def gen_scenario(rng):
+    if rng.random() < 0.2:
+        return gen_leapfrog(rng)
     n = rng.randint(2, 5)
     lines = []
     for t in range(n):
@@ -67,6 +106,7 @@ def gen_scenario(rng):
 class C18(PropCheck):
     pid = "C18"
     prop_module = "SigHook.Props.C18"
+    extra_modules = ("SigHook.Props.C18b",)
     assumptions = [
         "sequential consistency for the half-lock (all SeqCst, checked in C01_halflock_all_seqcst)",
         "finite workloads: every thread runs a finite script; a writer may spin for as long as a reader stays inside its read section (by design)",
@@ -116,7 +156,7 @@ class C18(PropCheck):
         for f in failures:
             uniq.setdefault(f["key"], f)
         return {"evaluations": len(results) + rcres["evaluations"], "distinct_nontrivial": nontrivial + rcres["distinct_nontrivial"],
-                "rule": "random scenarios with 2-5 threads, mostly writers (incl. no-store writes and stores whose old value's destructor panics under the writer mutex) plus readers, on the real HalfLock under the deterministic PRNG scheduler; compared step by step with the Lean model; monitors: runs to completion (no deadlock / livelock within the budget), quiescent completion bound (8 own steps), poisoned mutex does not stop later writers; non-trivial = at least two write calls",
+                "rule": "random scenarios with 2-5 threads, mostly writers (incl. no-store writes and stores whose old value's destructor panics under the writer mutex) plus readers (a fifth of the scenarios: one writer under a stream of overlapping long read sections), on the real HalfLock under the deterministic PRNG scheduler; compared step by step with the Lean model; monitors: runs to completion (no deadlock / livelock within the budget), quiescent completion bound (8 own steps), no further look at the slots once each was found empty (waits only for deliveries in flight at publication), poisoned mutex does not stop later writers; non-trivial = at least two write calls",
                 "samples": [{"scenario": results[0]["scenario"], "schedule": " ".join(results[0]["schedule"]), "trace": results[0]["impl"][:12]}] if results else [],
                 "traces_validated_against_impl": len(results), "steps_compared": steps, "distribution": dist,
                 "failures": list(uniq.values())}
